@@ -34,7 +34,7 @@ SPEC = dict(
     cs=[dict(family="visits", n=(80, 500), paths=(4, 6), calls=50, layouts=True,
              label="YarnTrace: random walks through jump graphs"),
         # counts are "unaffected by anything but jumps and restores": restores between nodes of different tracking modes
-        dict(family="visits", n=(40, 250), paths=(3, 5), calls=45, mode="snap",
+        dict(family="visits", n=(60, 300), paths=(3, 5), calls=45, mode="snap",
              label="YarnTrace: jump graphs with Snapshot / RestoreAt interleaved (three runners)")],
     rule="jump graphs on <=3 nodes (self-loops, cycles, jumps out of nested option/if bodies, jumps by expression and through a probe), "
          "tracking in {none, always, never} per node: all paths up to 12/16 calls enumerated by TLC and replayed; random longer walks "
